@@ -52,7 +52,31 @@ def generate(L):
     pre = L.find_fn(L.read_src("src/commands/hooks/cherry_pick_hooks.rs"), "pre_cherry_pick_hook", "cherry_pick_hooks.rs")
     if "let is_continuing = cherry_pick_in_progress && has_active_start;" not in pre or "if !is_continuing" not in pre:
         raise L.GenError("pre_cherry_pick_hook: is_continuing decision changed")
+    # the post hooks look the operation's Start up in the journal: does the scan stop at a Complete/Abort of the same
+    # kind (a closed Start belongs to an earlier operation), or does it take the newest Start whatever follows it?
+    shapes = []
+    for rel2, fn_name, start, comp, ab in (
+            ("src/commands/hooks/rebase_hooks.rs", "find_rebase_start_event", "RebaseStart", "RebaseComplete", "RebaseAbort"),
+            ("src/commands/hooks/cherry_pick_hooks.rs", "find_cherry_pick_start_event_original_head", "CherryPickStart", "CherryPickComplete", "CherryPickAbort"),
+            ("src/commands/hooks/cherry_pick_hooks.rs", "find_cherry_pick_start_event_source_commits", "CherryPickStart", "CherryPickComplete", "CherryPickAbort")):
+        fn = L.strip_comments(L.find_fn(L.read_src(rel2), fn_name, rel2))
+        if not re.search(r"RewriteLogEvent::" + start + r"\s*\{[^}]*\}\s*=>\s*\{\s*return Some\(", fn) or "_ => continue" not in fn:
+            raise L.GenError(f"{fn_name}: newest-first scan shape changed")
+        closes = re.search(r"RewriteLogEvent::" + comp + r"\s*\{\s*\.\.\s*\}\s*\|\s*RewriteLogEvent::" + ab +
+                           r"\s*\{\s*\.\.\s*\}\s*=>\s*\{\s*return None;", fn)
+        if not closes and (comp in fn or ab in fn):
+            raise L.GenError(f"{fn_name}: Complete/Abort handled in an unknown way")
+        shapes.append(bool(closes))
+    if len(set(shapes)) != 1:
+        raise L.GenError(f"the three Start look-ups disagree on closed Starts: {shapes}")
+    # the pre hooks log a Start only when HEAD resolves
+    for rel2, fn_name in (("src/commands/hooks/rebase_hooks.rs", "pre_rebase_hook"),
+                          ("src/commands/hooks/cherry_pick_hooks.rs", "pre_cherry_pick_hook")):
+        fn = L.find_fn(L.read_src(rel2), fn_name, rel2)
+        if not re.search(r"if let Ok\(head\) = repository\.head\(\)\s*\{\s*if let Ok\(target\) = head\.target\(\)", fn):
+            raise L.GenError(f"{fn_name}: the HEAD-resolves guard around the Start event changed")
     return "\n".join([
         f"Definition journal_cap : nat := {cap}.",
         "Definition post_hook_order_ok : bool := true.",
+        "Definition post_uses_active_start : bool := " + L.coq_bool(shapes[0]) + ".",
     ])
